@@ -100,6 +100,8 @@ def run_seq(case):
     RA = CTX.lib.RaggedArray
     lens = case["lens"]
     dt = np.dtype(case.get("dtype", "int64"))
+    if not ids_fit(case["lens"], dt):
+        return undefined("the harness's cell ids are not exactly representable in %s for %d rows" % (dt, len(case["lens"])), ["ids-do-not-fit"])
     recv = case.get("recv", "fresh")
     pyrows = gen.id_rows(lens)
     flat = np.array([v for r in pyrows for v in r], dtype=dt)
@@ -148,6 +150,17 @@ def run_seq(case):
     return held(tags, len(lens) >= 2 and sum(lens) > 0)
 
 
+def ids_fit(lens, dtype):
+    """the unique cell ids of an array with these row lengths (and of its bystander) are exactly representable in the element type"""
+    dt = np.dtype(dtype)
+    top = 1000 * len(lens) + (max(lens) if len(lens) else 0) + 500001
+    if dt.kind == "f":
+        return top < 2 ** (np.finfo(dt).nmant + 1)
+    if dt.kind in "iu":
+        return top <= np.iinfo(dt).max
+    return True
+
+
 def gen_seq(rng, tier, nsteps=None):
     lens, _ = gen.length_vector(rng, tier)
     n = len(lens)
@@ -183,6 +196,8 @@ def run(case):
         tags.append("valdtype:other")
         if vdt.kind in "Og":
             tags.append("valdtype:exotic")
+    if not ids_fit(lens, dt):
+        return undefined("the harness's cell ids are not exactly representable in %s for %d rows" % (dt, len(lens)), tags)
     try:
         kind, cells = model.select_cells(lens, rs, cs, has_cs)
     except model.Refused:
@@ -338,6 +353,8 @@ def run_mask(case):
     RA = CTX.lib.RaggedArray
     lens, vk = case["lens"], case["vk"]
     dt = np.dtype(case.get("dtype", "int64"))
+    if not ids_fit(case["lens"], dt):
+        return undefined("the harness's cell ids are not exactly representable in %s for %d rows" % (dt, len(case["lens"])), ["ids-do-not-fit"])
     m = np.array(case["mask"], dtype=bool)
     tags = ["mask:" + vk] + gen.empty_placement(lens)
     pyrows = gen.id_rows(lens)
@@ -500,6 +517,8 @@ def random_case(rng, tier, lens=None, plain=False):
         lens, _ = gen.length_vector(rng, tier)
     n = len(lens)
     dtype = rng.choice(["int64", "int64", "int32", "float64", "float64", "float32"])
+    if dtype == "float32" and not ids_fit(lens, dtype):
+        dtype = "float64"       # the cell ids (1000 * row + column + 1) of this many rows are not exactly representable in float32
     if not plain and rng.random() < 0.12:
         p = rng.choice([0.0, 0.3, 0.6, 1.0])
         return mk_mask_case(lens, [rng.random() < p for _ in range(sum(lens))], rng.choice(["scalar", "flat"]), dtype)
